@@ -749,8 +749,10 @@ def cdrive(path, ops, cfg, fault=None):
                 try:
                     c[o[2]] = o[3].b
                 except Exception:
-                    if o[2] in pending[i] and not any(x == o[2] for x, _ in be._write_queue):
-                        pass                    # judged below (the flush it triggered may have failed on ANOTHER item)
+                    if cms[i] is None or state_before != "writing":
+                        # a put attempted outside a writing session taints its key whatever came of it: the overflow flush may have
+                        # failed on an EARLIER item and left this one buffered, to be written by the next writing session
+                        tainted.add(o[2])
                     raise
                 r = "BOk"
                 if cms[i] is None or be._state != "writing":
